@@ -2,3 +2,7 @@ import Props.C17
 #print axioms C17.lightness
 #print axioms C17.black_white
 #print axioms C17.maxmin
+#print axioms C17.saturation_range
+#print axioms C17.hue_range
+#print axioms C17.saturation_accurate
+#print axioms C17.l_le_max
